@@ -27,6 +27,11 @@ func runC02(w *World, r *Report, tier string) {
 	r.Rule("R4", "progress: every cycle passes through Token; a Token error leaves the function; NextXmppToken turns io.EOF into an error")
 	r.Rule("R5", "panic inventory: explicit panics, unchecked type assertions, indexing/slicing, map stores and integer division in the parser closure are exactly the frozen, justified list")
 
+	r.Rule("R6", "however the bytes are split: a Read method between the connection and the decoder that wraps another Read hands on that Read's byte count whenever it hands on its outcome — bytes delivered together with an error, or in a read whose logging succeeded, belong to the element being read")
+	if readWrappersForwardCount(w, r, "R6") < 2 {
+		r.Undecided("R6", "module#Read-wrappers", "-", "fewer than the 2 Read wrappers confirmed by hand (streamLogger, XMPPTransport)")
+	}
+
 	np := w.Func("stanza.NextPacket")
 	r.Anchor("stanza.NextPacket")
 	// ---- R1
